@@ -56,6 +56,13 @@ def shapes(tier):
                  b'include("")', b"sec sec sec", b"m m m { {", b"i = = 1", b"l += += 1", b"s = \"\\", b"s = \"\\x\"", b"s = \"\\8\"", b"s = \"\\400\"",
                  b"s = \"${\"", b"s = \"${X\"", b"s = \"${X:-\"", b"s = ${X:-${Y}}", b"m \"\" { }", b"\"\" = 1", b"'' = 1"):
         s.append(("frag", frag))
+    # option names written as paths (the parser resolves every name with the path resolver): quoted titles with
+    # escapes, indices at the edges, unterminated quotes, stray separators
+    for frag in (b'm "it\'s" { x = 1 }\n"m=\'it\\\\\'s\'|x" = 2\n', b'm "a\\\\b" { x = 1 }\n"m=\'a\\\\\\\\b\'|x" = 2\n', b'"m=\'\\\\\'|x" = 1\n',
+                 b'"m=\'\\\\" = 1\n', b'"m=\'unterminated|x" = 1\n', b'"m=\'\'|x" = 1\n', b"sec|x = 3\n", b'"sec|x" = 3\n', b"sec|sec|x = 3\n", b"sec| = 3\n",
+                 b"|x = 1\n", b'"m=t|" = 1\n', b'm t { }\n"m=0|x" = 1\n', b'"m=4294967296|x" = 1\n', b'"m=-1|x" = 1\n', b'"m=|x" = 1\n', b'"m==|x" = 1\n',
+                 b'"sec=0|x" = 1\n', b'"i|x" = 1\n', b'"m=\'' + b"\\\\'" * 200 + b'\'|x" = 1\n'):
+        s.append(("path_name", frag))
     return s
 
 
